@@ -7,7 +7,7 @@ import (
 	"github.com/teleport-network/teleport/x/xibc/exported"
 )
 
-// ExportMetadata exports all the processed times in the client store so they can be included in clients genesis
+// ExportMetadata exports all the processed times and iteration keys in the client store so they can be included in clients genesis
 // and imported by a ClientKeeper
 func (cs ClientState) ExportMetadata(store sdk.KVStore) []exported.GenesisMetadata {
 	gm := make([]exported.GenesisMetadata, 0)
@@ -15,6 +15,13 @@ func (cs ClientState) ExportMetadata(store sdk.KVStore) []exported.GenesisMetada
 		gm = append(gm, clienttypes.NewGenesisMetadata(key, val))
 		return false
 	})
+	// the iteration keys are client metadata as well: without them an imported client cannot iterate
+	// (and therefore never prunes) the consensus states it was imported with
+	iterator := sdk.KVStorePrefixIterator(store, []byte(KeyIterateConsensusStatePrefix))
+	defer iterator.Close()
+	for ; iterator.Valid(); iterator.Next() {
+		gm = append(gm, clienttypes.NewGenesisMetadata(iterator.Key(), iterator.Value()))
+	}
 	if len(gm) == 0 {
 		return nil
 	}
